@@ -48,6 +48,8 @@ Definition c13_model_ok (k : c13_case) : bool :=
   let '(c, ops, outA, outB, wrote) := k in
   let mA := model_A ops in
   let mB := model_B ops in
+  (* the model never writes a caller location (C13_never_writes_caller) *)
+  match wrote with [] => true | _ :: _ => false end &&
   if opaque c then
     (length outA =? length mA)%nat && (length outB =? length mB)%nat &&
     Bool.eqb (lleqb mA mB) (lleqb outA outB)
